@@ -362,6 +362,44 @@ def run(ctx):
         via = sorted({c_.split("::")[-1] for c_ in derive(aix, ab_.blocks[first]["t"]["a"]).calls}) if first is not None else None
         pars = sorted(derive(aix, ab_.blocks[first]["t"]["a"]).params) if first is not None else None
         ctx.ob("HKMEMBERS", "read_array|dispatch-first", first is not None and "base_type" in via, f"read_array's first decision is on a value from {via} (parameters {pars}); it must be the element type's base type, for every array length", ab_.file, ab_.line)
+    # string table of the tag file: a negative length is a back-reference into the remembered strings, and EVERY literal
+    # (length >= 0, the empty one included) is remembered — back-references count literals in stream order, so a literal
+    # that is returned without being pushed shifts every later reference by one
+    rsn = [n_ for n_ in prog.raw_bodies if n_.startswith("havok::binary_tag_file_reader::") and n_.endswith("::read_string")]
+    if len(rsn) != 1:
+        ctx.fail_closed("HKMEMBERS", f"read_string of the tag-file reader not found ({len(rsn)})")
+    else:
+        sb_ = prog.body(rsn[0])
+        six = index_of(sb_)
+        neg_sw = None
+        for bi_, blk_ in enumerate(sb_.blocks):
+            t_ = blk_["t"]
+            if t_["k"] == "switch" and not blk_["cleanup"]:
+                r_ = six.resolve(t_["a"])
+                if r_[0] == "rv" and r_[1]["k"] == "bin" and r_[1]["op"] in ("Lt", "Ge") and "read_packed_int" in {c_.split("::")[-1] for c_ in derive(six, t_["a"]).calls}:
+                    from ..mir import const_int as _ci
+
+                    if _ci(r_[1]["b"]) == 0:
+                        neg_sw = (bi_, t_, r_[1]["op"])
+                        break
+        if not neg_sw:
+            ctx.fail_closed("HKMEMBERS", "read_string: the `length < 0` test on the packed length was not found")
+        else:
+            bi_, t_, op_ = neg_sw
+            zero_t = [int(tg) for v_, tg in t_["arms"] if int(v_) == 0]
+            nonneg = (zero_t[0] if zero_t else None) if op_ == "Lt" else t_["else"]
+            pushes = {b2 for b2, t2 in sb_.calls() if (t2.get("res") or "").endswith("Vec::<T, A>::push") and "remembered_strings" in derive(six, t2["args"][0]).names}
+            seen_, stack_, escapes = set(), [nonneg], False
+            while stack_ and nonneg is not None:
+                x = stack_.pop()
+                if x in seen_ or x in pushes or sb_.blocks[x]["cleanup"]:
+                    continue
+                seen_.add(x)
+                if sb_.blocks[x]["t"]["k"] == "return":
+                    escapes = True
+                    break
+                stack_ += [s_ for s_ in sb_.succ(x)]
+            ctx.ob("HKMEMBERS", "read_string|every-literal-remembered", nonneg is not None and bool(pushes) and not escapes, f"read_string: from the non-negative-length side of its `length < 0` test a return is reachable without pushing onto remembered_strings: {escapes}; pushes found: {len(pushes)} (every literal, also the empty one, takes the next back-reference slot)", sb_.file, sb_.line)
     # the bit field of `count` members occupies ceil(count / 8) bytes: the byte count handed to read_bytes, as an
     # expression of the parameter, is evaluated for every count up to 4096 (integer +, -, *, /, %, &, |, >>, <<, div_ceil)
     bfb = prog.body("havok::binary_tag_file_reader::HavokBinaryTagFileReader::<'a>::read_bit_field")
